@@ -456,6 +456,10 @@ def execute(scenario, tape=None, keep_events=False):
                         probes.hit("raised-under-rpc-fault")
                     elif insufficient:
                         probes.hit("refused-amount-below-fee")
+                    elif feats["legacy"] and s["signed"] and s["flag"] & 0x1F == 3 and _single_has_no_output(node, ledger, reported, s, lo, fee):
+                        # legacy SIGHASH_SINGLE for an input without an output of the same index hashes
+                        # to the constant 1 (a signature anyone can replay): refusing to sign is right
+                        probes.hit("refused-legacy-single-without-matching-output")
                     else:
                         viols.append(Violation("refused", where + f" recipient={r_kind} change={'given' if s['change'] else 'none'}", exc, feats))
                     continue
@@ -580,6 +584,24 @@ def execute(scenario, tape=None, keep_events=False):
     res.stats["events"] = log.events if keep_events else None
     res.features = {"stratum": sc["stratum"]}
     return res
+
+
+def _single_has_no_output(node, ledger, reported, s, lo, fee):
+    """Would the selection (a prefix of the listing order) have more inputs than outputs?"""
+    keys = list(reported)
+    if s["order"] == "reversed":
+        keys = keys[::-1]
+    elif s["order"] == "shuffled":
+        keys = node.reports.get(ledger.utxos[reported[0]]["spk"], keys)
+    total = 0
+    n_in = 0
+    for k in keys:
+        total += ledger.utxos[k]["sat"]
+        n_in += 1
+        if total >= lo:
+            break
+    n_out = 2 if total - lo >= DUST else 1
+    return n_in > n_out or (n_in > 1 and total - lo in range(DUST - 1, DUST + 1))
 
 
 def A_fmt(sat):
